@@ -232,6 +232,8 @@ def main(argv=None):
             crashed.append({"unit": ["rt", prop, {}], "error": rt["error"]})
         else:
             rt_cov = rt
+            for c_ in rt.get("crashes", []):
+                crashed.append({"unit": ["rt", prop, {}], "error": c_})
             for f in rt.get("failures", []):
                 key = f.get("key")
                 kf = match_known(known, prop, key)
